@@ -1,5 +1,5 @@
 //! C18 stage B: loom bodies run against the instrumented copy of the engine (std::sync -> loom::sync).
-//!   loomh run <B1|B2|B3|B4> <threads> <preemption_bound|none>   (child mode: one body, exits 0 / 101, prints JSON)
+//!   loomh run <B1|B2|B3|B4|B5> <threads> <preemption_bound|none>   (child mode: one body, exits 0 / 101, prints JSON)
 use arimaa_engine_step::*;
 use loom::sync::Arc as LArc;
 use loom::sync::Mutex as LMutex;
@@ -78,6 +78,32 @@ fn act(s: &GameState, a: Action) -> GameState {
     s.take_action(&a)
 }
 
+/// Plays `actions` from the root and returns every state along the path.  With `check` each action is asserted to be
+/// offered (this QUERIES the states); without it the states are produced by take_action alone, so that the threads of
+/// a body are the first ever to query them (lazily initialised caches must not be warmed by the harness).
+fn play(actions: &[Action], check: bool) -> Vec<GameState> {
+    let mut v = vec![root()];
+    for a in actions {
+        let s = v.last().unwrap();
+        let t = if check { act(s, *a) } else { ENGINE_CALLS.fetch_add(1, Ordering::Relaxed); s.take_action(a) };
+        v.push(t);
+    }
+    v
+}
+
+fn history_actions() -> Vec<Action> {
+    vec![
+        mv(35, Direction::Left), // Gold E d4 -> c4
+        Action::Pass,
+        mv(28, Direction::Left), // Silver c e5 -> d5
+        Action::Pass,
+        mv(34, Direction::Up), // Gold E c4 -> c5 (freezes the cat)
+        Action::Pass,
+        mv(7, Direction::Down), // Silver r h8 -> h7
+        Action::Pass,
+    ]
+}
+
 /// A state with a 5-entry history: four turns played from the root.  Gold to move at step 0 with E c5 next to the
 /// silver cat d5, so pushes (and, after an elephant step, pulls) are on offer.
 fn history_state() -> GameState {
@@ -127,21 +153,28 @@ fn expand(s: &GameState, which: usize) -> Vec<u64> {
 
 /// B1: k threads expand three shared states of one turn - step 0 (pushes on offer), step 1 (a pull on offer, pass
 /// offered) and step 3 (every step ends the turn and appends to the shared history) - while the main thread drops
-/// its own handles.
+/// its own handles.  The expected observations come from a second, separately built copy of the same states.
 fn b1(threads: usize) {
-    let h = history_state(); // Gold to move, step 0, history of 5
-    let s1 = act(&h, mv(26, Direction::Left)); // E c5 -> b5 : step 1, possible pull of the cat
-    let s2 = act(&s1, mv(27, Direction::Left)); // pull: c d5 -> c5
-    let s3 = act(&s2, mv(25, Direction::Up)); // E b5 -> b6 : step 3
-    drop(s2);
+    let mut acts = history_actions();
+    acts.extend([mv(26, Direction::Left), mv(27, Direction::Left), mv(25, Direction::Up)]); // E c5-b5, pull c d5-c5, E b5-b6
+    let reference = play(&acts, true);
+    let n = reference.len();
+    let (rh, rs1, rs3) = (&reference[n - 4], &reference[n - 3], &reference[n - 1]);
     let expected: Vec<Vec<u64>> = (0..threads)
         .map(|i| {
-            let mut o = expand(&h, i + 2);
-            o.extend(expand(&s1, i));
-            o.extend(expand(&s3, i + 1));
+            let mut o = expand(rh, i + 2);
+            o.extend(expand(rs1, i));
+            o.extend(expand(rs3, i + 1));
             o
         })
         .collect();
+    let mut fresh = play(&acts, false);
+    let s3 = fresh.pop().unwrap();
+    let _s2 = fresh.pop().unwrap();
+    let s1 = fresh.pop().unwrap();
+    let h = fresh.pop().unwrap();
+    drop(fresh);
+    drop(_s2);
     let a0 = LArc::new(h);
     let a1 = LArc::new(s1);
     let a3 = LArc::new(s3);
@@ -164,6 +197,7 @@ fn b1(threads: usize) {
         let got = h.join().unwrap();
         assert_eq!(got, expected[i], "B1: thread {} observed results that differ from sequential expansion", i);
     }
+    drop(reference);
 }
 
 /// B2: threads take different actions from a shared state, play two more turns each on the structurally shared
@@ -194,7 +228,8 @@ fn b2(threads: usize) {
         o
     };
     let expected: Vec<Vec<u64>> = (0..threads).map(|i| seq(i, &h)).collect();
-    let shared = LArc::new(h);
+    drop(h);
+    let shared = LArc::new(play(&history_actions(), false).pop().unwrap());
     let mut hs = vec![];
     for i in 0..threads {
         let s = shared.clone();
@@ -213,10 +248,18 @@ fn b2(threads: usize) {
 /// B3: a state built in one thread is handed to another through a mutex and expanded there while its parent and a
 /// sibling are still alive (and being dropped) in the first.
 fn b3(threads: usize) {
-    let h = history_state();
-    let child = act(&h, mv(26, Direction::Left));
-    let expected = expand(&child, 0);
-    let expected_parent = fp(&h);
+    let rh = history_state();
+    let rchild = act(&rh, mv(26, Direction::Left));
+    let expected = expand(&rchild, 0);
+    let expected_parent = fp(&rh);
+    drop(rchild);
+    drop(rh);
+    let mut acts = history_actions();
+    acts.push(mv(26, Direction::Left));
+    let mut fresh = play(&acts, false);
+    let child = fresh.pop().unwrap();
+    let h = fresh.pop().unwrap();
+    drop(fresh);
     let slot: LArc<LMutex<Option<GameState>>> = LArc::new(LMutex::new(None));
     let mut hs = vec![];
     for _ in 0..threads.saturating_sub(1).max(1) {
@@ -278,10 +321,62 @@ fn b4(threads: usize) {
     }
 }
 
+/// B5: k threads expand a shared mid-turn state in which passing would be the THIRD occurrence of a position
+/// (pass withheld), reached by eight shuffling turns, plus the turn-start state before it.  The shared states have
+/// never been queried before the threads start, so any lazily computed / cached repetition answer that is published
+/// non-atomically shows up as an offered pass.
+fn b5(threads: usize) {
+    // Gold E d4 <-> c4, Silver r h8 <-> g8, twice round: the root position then has occurred twice
+    let mut acts: Vec<Action> = vec![];
+    for round in 0..2 {
+        acts.extend([mv(35, Direction::Left), Action::Pass, mv(7, Direction::Left), Action::Pass, mv(34, Direction::Right), Action::Pass]);
+        if round == 0 {
+            acts.extend([mv(6, Direction::Right), Action::Pass]);
+        }
+    }
+    acts.push(mv(6, Direction::Right)); // Silver r g8 -> h8 : passing now would restore the root position a third time
+    let reference = play(&acts, true);
+    let n = reference.len();
+    let (rt0, rt1) = (&reference[n - 2], &reference[n - 1]);
+    assert!(!rt1.valid_actions().contains(&Action::Pass), "B5 set-up: the pass should be withheld as a third repetition");
+    assert!(rt1.valid_actions_no_rep().contains(&Action::Pass));
+    let expected: Vec<Vec<u64>> = (0..threads)
+        .map(|i| {
+            let mut o = vec![rt1.can_pass(true) as u64];
+            o.extend(expand(rt1, i));
+            o.extend(expand(rt0, i + 1));
+            o
+        })
+        .collect();
+    let mut fresh = play(&acts, false);
+    let t1 = fresh.pop().unwrap();
+    let t0 = fresh.pop().unwrap();
+    drop(fresh);
+    let a1 = LArc::new(t1);
+    let a0 = LArc::new(t0);
+    let mut hs = vec![];
+    for i in 0..threads {
+        let (a0, a1) = (a0.clone(), a1.clone());
+        hs.push(loom::thread::spawn(move || {
+            let mut o = vec![a1.can_pass(true) as u64];
+            o.extend(expand(&a1, i));
+            drop(a1);
+            o.extend(expand(&a0, i + 1));
+            o
+        }));
+    }
+    drop(a0);
+    drop(a1);
+    for (i, h) in hs.into_iter().enumerate() {
+        assert_eq!(h.join().unwrap(), expected[i], "B5: thread {} observed results that differ from sequential expansion (repetition-sensitive state)", i);
+    }
+    drop(reference);
+}
+
 fn main() {
     let a: Vec<String> = std::env::args().collect();
     if a.len() != 5 || a[1] != "run" {
-        eprintln!("usage: loomh run <B1|B2|B3|B4> <threads> <preemption_bound|none>");
+        eprintln!("usage: loomh run <B1|B2|B3|B4|B5> <threads> <preemption_bound|none>");
         std::process::exit(2);
     }
     let body = a[2].clone();
@@ -299,6 +394,7 @@ fn main() {
             "B2" => b2(threads),
             "B3" => b3(threads),
             "B4" => b4(threads),
+            "B5" => b5(threads),
             _ => panic!("unknown body"),
         }
     });
